@@ -214,10 +214,14 @@ func (obj *Package) Unuse(pkg *Package) {
 		obj.classes = map[string]Class{}
 		for _, p := range obj.Uses {
 			for name, vv := range p.vars {
-				obj.vars[name] = vv
+				if vv.Export {
+					obj.vars[name] = vv
+				}
 			}
 			for name, fi := range p.funcs {
-				obj.funcs[name] = fi
+				if fi.Export {
+					obj.funcs[name] = fi
+				}
 			}
 			for name, c := range p.classes {
 				obj.classes[name] = c
